@@ -83,6 +83,9 @@ func runC05(c *core.Ctx) {
 	c05TypeGuard(c)
 	c05Reflect(c)
 	c05Ticker(c)
+	if root := c.P.Pkg(""); root != nil {
+		c05UdfOpenState(c, root)
+	}
 }
 
 // ---------------------------------------------------------------- recover placement
